@@ -27,6 +27,16 @@ CHECKS = {
  "C14": ("fault_enumeration", "exhaustive fault enumeration per generated file: every cut offset, every marker/magic byte alteration; expected outcome from an independent layout reader",
          "For each generated multi-block file every byte offset is a cut point and every marker/magic byte is altered with three masks; the expected prefix and Ok/Err shape are computed from the block layout.",
          "Block boundaries come from the harness's independent container reader on the pristine file.", "DESIGN.md §4 C14"),
+
+ "C10": ("exploration", "property-based testing plus bounded-exhaustive grids; round-trip oracle with a strict JSON reader and a complete structural dump as deep equality",
+         "Every accepted text: serialized JSON must be strict, re-parse to a schema with an identical complete dump, serialize byte-identically again, and survive a container-file header.",
+         "Deep equality is the harness's own dump over the library's public Schema fields.", "DESIGN.md §4 C10"),
+ "C12": ("exploration", "property-based differential testing against a reference Parsing Canonical Form computed from the JSON text and a bitwise CRC-64-AVRO; metamorphic irrelevant-edit variants",
+         "canonical_form equals the reference PCF of the text, is equal across irrelevant-edit variants and idempotent; Rabin/MD5/SHA-256 fingerprints equal reference digests; Rabin over arbitrary bytes in arbitrary pieces equals the bitwise reference.",
+         "refpcf implements the spec's seven rules (self-test with published vectors); md-5/sha2 crates cross-checked with Python hashlib.", "DESIGN.md §4 C12"),
+ "C18": ("exploration", "model-based property testing of write sequences through one writer plus exhaustive header bit-flip/truncation enumeration; reference header from refpcf/CRC-64-AVRO",
+         "Each successful write must emit exactly marker+fingerprint+datum and read back alone via both readers, also after failed writes; all 80 header bit flips and all truncations must be rejected without touching the datum.",
+         "Expected fingerprint from the harness's reference canonical form (schemas without logical types, whose canonical form is C12's known finding).", "DESIGN.md §4 C18"),
 }
 NOT_YET = {}
 
